@@ -152,6 +152,7 @@ def run(tier, seed, model):
             r.pop("client")
             if off == 0:
                 batch.add(cfg, [hs + msg], [], r, True, "channels")
+    announced_in_force(camp, rng, batch, 3 if tier == "quick" else 40)
     camp.exhaustive = False
     camp.extra["bgr16_all_65536_values"] = True
     batch.resolve(camp, "C13")
@@ -161,6 +162,54 @@ def run(tier, seed, model):
                  "carrying every 16-bit value (BGR16, exhaustive) or each channel ramp + random values (24/32-bit) must show the "
                  "channel values; compared with the Coq model; non-trivial = distinct (block, version, options)")
     return camp
+
+
+def announced_in_force(camp, rng, batch, rounds):
+    """the server's native format cannot be rendered: the client announces RGB32 (BGR16 to an Apple 3.889 server); from then on
+    the server sends pixels in THAT format, of another byte width than the native one - raw and RRE rectangles must be sized
+    and coloured by it, and the Bell behind them must be seen (framing intact)"""
+    for _ in range(rounds):
+        for native in rfbgen.UNACCEPTED:
+            for version in [(3, 8), (3, 3), (3, 889)]:
+                announced = rfbgen.BGR16 if version == (3, 889) else rfbgen.RGB32
+                ver = rfbgen.negotiated(*version)
+                hs = rfbgen.banner(*version)
+                hs += struct.pack("!I", 1) if ver < (3, 7) else (b"\x01\x01" if ver < (3, 8) else b"\x01\x01\0\0\0\0")
+                hs += struct.pack("!HH", 4, 2) + native.block() + struct.pack("!I", 0)
+                vals = [rng.getrandbits(announced.bpp) for _ in range(8)]
+                bg, fg = rng.getrandbits(announced.bpp), rng.getrandbits(announced.bpp)
+                msg = (b"\0\0\0\x01" + struct.pack("!HHHHi", 0, 0, 4, 2, 0) + b"".join(announced.pix(v) for v in vals)
+                       + b"\0\0\0\x01" + struct.pack("!HHHHi", 1, 0, 2, 2, 2) + struct.pack("!I", 1) + announced.pix(bg)
+                       + announced.pix(fg) + struct.pack("!HHHH", 1, 1, 1, 1)
+                       + b"\x02")
+                want = [announced.rgb(v) for v in vals]
+                for (x, y) in [(1, 0), (2, 0), (1, 1)]:
+                    want[y * 4 + x] = announced.rgb(bg)
+                want[1 * 4 + 2] = announced.rgb(fg)
+                want = b"".join(bytes(p) for p in want)
+                data = hs + msg
+                cut = rng.randrange(len(hs), len(data))
+                for chunks in ([data], [data[:cut], data[cut:]]):
+                    cfg = Cfg(variant=rng.choice([1, 2]), nocursor=True)
+                    r = run_real(cfg, chunks)
+                    camp.evaluations += 1
+                    camp.count(f"announced-in-force:native-bpp{native.bpp}:{'apple' if version == (3, 889) else 'other'}")
+                    camp.nontrivial.add(("announced", native.t, version, tuple(vals), len(chunks)))
+                    got = r["screen"][1] if r["screen"] else None
+                    why = None
+                    if r["final"][0] != "idle" or r["final"][1] != 0:
+                        why = f"the client ends {r['final'][:3]} (not idle at a message boundary)"
+                    elif not r["events"] or r["events"][-1] != ("Bell",):
+                        why = f"the Bell behind the update was not seen last (last events {trim(r['events'])[-2:]})"
+                    elif got != want:
+                        why = f"screen {None if got is None else got.hex()} differs from the colours sent {want.hex()}"
+                    if why:
+                        camp.oracle_failures.append({"kind": "oracle", "property": "C13", "case": case_payload(cfg, chunks),
+                                                     "what": f"server {version} with native format {native.t}: after the client announced "
+                                                             f"{announced.t}, a raw + RRE update in that format: {why}"})
+                        return
+                    r.pop("client")
+                    batch.add(cfg, chunks, [], r, True, "announced")
 
 
 def replay(payload):
